@@ -37,6 +37,7 @@ let () =
   let f = match stream with
     | "layout" -> run_layout
     | "mech" -> run_mech
+    | "ptr" -> run_ptr
     | _ -> (prerr_endline ("unknown stream " ^ stream); exit 2) in
   let ic = open_in Sys.argv.(2) in
   (try
